@@ -7,4 +7,6 @@ export CARGO_NET_OFFLINE=true
 mkdir -p out evidence
 ( cd harness && cargo build --offline -q --bin mb2-check --release && cargo build --offline -q --bin mb2-check )
 if [ -x transcript/build.sh ]; then transcript/build.sh; fi
+# warm the cargo-fuzz build (nightly, ASan); the checks build it on demand as well
+( cargo +nightly fuzz build --fuzz-dir fuzz > out/fuzz-build.log 2>&1 && echo "fuzz targets built" ) || echo "note: fuzz targets not built now (see out/fuzz-build.log); the checks will try again"
 echo "setup ok"
